@@ -1,4 +1,5 @@
 import PyamgV.Props.Restate
+import PyamgV.Proofs.ExtPyLevelize
 import PyamgV.Proofs.Coarsen
 import PyamgV.Proofs.C04Loop
 import PyamgV.Proofs.C04Check
@@ -240,5 +241,66 @@ example : (List.range 3).map (PyamgV.C19.entry (PyamgV.C19.filterRowDiag CRat.no
 -- the fast checker on the two-level example
 example : checkHierS .symm 0 [⟨exA, exP, exR⟩, ⟨⟨1, 1, #[⟨2, 0⟩]⟩, exE, exE⟩] = true := by decide +kernel
 end e50_examples
+
+/-! ## E31 -- the option handling, translated from the source (`harness/py2lean.py`)
+
+`PyamgV.Generated.PyLogic.*` are executable Lean definitions regenerated from the Python AST of the
+working tree on every run (`levelize_strength_or_aggregation`, `levelize_smooth_or_improve_candidates`,
+the `unpack_arg` helpers of all constructors); the driver runs them (`ext_py_call`) and the check compares
+them with the real functions on generated option values, exception classes included.  The theorems
+below are about those generated definitions; when the translator meets syntax outside its subset the
+definition becomes `unsupported "..."` and they stop compiling. -/
+section e31
+open PyamgV.ExtPy PyamgV.Generated.PyLogic PyamgV.ExtPyLev
+
+/-- every `unpack_arg(v)` helper: `(v[0], v[1])` for a tuple (`IndexError` for a short one), `(v, {})` otherwise -/
+restate py_unpack_arg_spec := PyamgV.ExtPyLev.unpack_arg_spec
+/-- the nine copies (aggregation, root-node, pairwise, adaptive, classical, AIR, coarse-grid solver,
+relaxation-as-operator, smoothing) are one function -/
+restate py_unpack_arg_all_equal := PyamgV.ExtPyLev.unpack_arg_all_equal
+/-- `('predefined', {...})` forces `max_levels = 2`, `max_coarse = 0` whatever the limits were -/
+restate py_levelize_tuple_predefined := PyamgV.ExtPyLev.lsa_tuple_predef
+/-- a plain tuple / string / `None` is repeated `max_levels - 1` times, limits unchanged -/
+restate py_levelize_tuple_plain := PyamgV.ExtPyLev.lsa_tuple_plain
+restate py_levelize_str := PyamgV.ExtPyLev.lsa_str
+restate py_levelize_none := PyamgV.ExtPyLev.lsa_none
+/-- the bare string `'predefined'`, and values of any other type, raise `ValueError`; the empty tuple /
+empty list / a list ending with `()` raise `IndexError` -/
+restate py_levelize_str_predefined_raises := PyamgV.ExtPyLev.lsa_str_predef
+restate py_levelize_invalid_raises := PyamgV.ExtPyLev.lsa_invalid
+restate py_levelize_empty_tuple_raises := PyamgV.ExtPyLev.lsa_tuple_empty
+restate py_levelize_empty_list_raises := PyamgV.ExtPyLev.lsa_list_empty
+restate py_levelize_list_last_empty_raises := PyamgV.ExtPyLev.lsa_list_last_empty
+/-- a list ending with a predefined entry: `max_levels = len + 1`, `max_coarse = 0`, the list as it is -/
+restate py_levelize_list_predefined := PyamgV.ExtPyLev.lsa_list_predef
+/-- any other list: the user's entries, the last one repeated up to `max_levels - 1` entries -/
+restate py_levelize_list_plain := PyamgV.ExtPyLev.lsa_list_plain
+/-- summary: whenever it returns, the triple `(max_levels', max_coarse', list)` has a list covering every
+level index the loop uses, entries drawn from the user's value / list with the last one repeated, and
+limits changed only by `'predefined'` entries, as documented -/
+restate py_levelize_returns := PyamgV.ExtPyLev.lsa_returns
+/-- LINK: the generated function computes the numbers of the hand-written `C04.levelize` (the model the
+constructor model `C04.ctorRun` is built from) -/
+restate py_levelize_refines_model := PyamgV.ExtPyLev.lsa_refines_model
+/-- `levelize_smooth_or_improve_candidates`: string / tuple / `None` repeated `max_levels` times; a list (or
+the default tuple of tuples) continued by its last entry -/
+restate py_levelize_smooth_str := PyamgV.ExtPyLev.lsi_str
+restate py_levelize_smooth_none := PyamgV.ExtPyLev.lsi_none
+restate py_levelize_smooth_tuple := PyamgV.ExtPyLev.lsi_tuple_plain
+restate py_levelize_smooth_list := PyamgV.ExtPyLev.lsi_list
+restate py_levelize_smooth_list_empty := PyamgV.ExtPyLev.lsi_list_empty
+restate py_levelize_smooth_tuple_of_tuples := PyamgV.ExtPyLev.lsi_tuple_of_tuples
+restate py_levelize_smooth_returns := PyamgV.ExtPyLev.lsi_returns
+
+-- non-vacuity: the docstring examples of utils.py, evaluated by the kernel on the generated definitions
+example : utils_levelize_strength_or_aggregation (.list [.str "evolution", .str "classical"]) (.int 4) (.int 10)
+    = .ok (.tuple [.int 4, .int 10, .list [.str "evolution", .str "classical", .str "classical"]]) := by rfl
+example : utils_levelize_smooth_or_improve_candidates (.list [.str "gauss_seidel", .none]) (.int 4)
+    = .ok (.list [.str "gauss_seidel", .none, .none, .none]) := by rfl
+example : utils_levelize_strength_or_aggregation
+    (.list [.str "symmetric", .tuple [.str "predefined", .dict [("C", .obj "CSR")]]]) (.int 10) (.int 500)
+    = .ok (.tuple [.int 3, .int 0, .list [.str "symmetric", .tuple [.str "predefined", .dict [("C", .obj "CSR")]]]]) := by rfl
+example : kindOf (.list [.str "symmetric", .tuple [.str "predefined", .dict [("C", .obj "CSR")]]]) = some (.listPredef 2) := by rfl
+end e31
 
 end PyamgV.Props.C04
